@@ -400,8 +400,8 @@ def opc3b_fillers(ctx: Ctx) -> None:
 RAW, NORM = "RAW", "NORM"
 
 
-def _is_cache_loop(ctx: Ctx, mod: Mod, st: ast.AST, var: str) -> bool:
-    """while <... code[var] == op['CACHE'] ...>: var -= 2"""
+def _is_cache_loop(ctx: Ctx, mod: Mod, st: ast.AST, var: str, opname_param: Optional[str] = None) -> bool:
+    """while <... code[var] == op['CACHE'] ...>: var -= 2     (or op[<opname_param>] inside a helper parameterised by the name)"""
     if not isinstance(st, ast.While):
         return False
     has = False
@@ -409,8 +409,8 @@ def _is_cache_loop(ctx: Ctx, mod: Mod, st: ast.AST, var: str) -> bool:
         if isinstance(n, ast.Compare) and len(n.ops) == 1 and isinstance(n.ops[0], ast.Eq):
             a, b = n.left, n.comparators[0]
             for x, y in ((a, b), (b, a)):
-                if isinstance(x, ast.Subscript) and norm(x.slice) == var and isinstance(y, ast.Subscript) \
-                        and isinstance(y.slice, ast.Constant) and y.slice.value == "CACHE" and _is_opmap(ctx, mod, y.value):
+                if isinstance(x, ast.Subscript) and norm(x.slice) == var and isinstance(y, ast.Subscript) and _is_opmap(ctx, mod, y.value) \
+                        and ((isinstance(y.slice, ast.Constant) and y.slice.value == "CACHE") or (opname_param is not None and isinstance(y.slice, ast.Name) and y.slice.id == opname_param)):
                     has = True
     if not has:
         return False
@@ -429,6 +429,8 @@ def _normalising_helpers(ctx: Ctx, mod: Mod, fn: ast.AST, var: str) -> Set[str]:
             body = [s for s in n.body if not isinstance(s, (ast.Nonlocal, ast.Expr))]
             if nl and body and _is_cache_loop(ctx, mod, body[-1], var):
                 out.add(n.name)
+            elif nl and body and len(n.args.args) == 1 and _is_cache_loop(ctx, mod, body[-1], var, n.args.args[0].arg):
+                out.add(n.name + "('CACHE')")  # normalises when called with the literal "CACHE"
     return out
 
 
@@ -497,13 +499,13 @@ def opc1_cache_normalisation(ctx: Ctx) -> None:
                 # a call of a helper inside the condition
                 for c in ast.walk(a.test) if hasattr(a, "test") else []:
                     if isinstance(c, ast.Call) and isinstance(c.func, ast.Name) and c.func.id in nonlocal_helpers:
-                        s = NORM if c.func.id in helpers else RAW
+                        s = NORM if (c.func.id in helpers or (f"{c.func.id}('CACHE')" in helpers and len(c.args) == 1 and norm(c.args[0]) == "'CACHE'")) else RAW
                 return s, s
             for x in ast.walk(a):
                 if isinstance(x, ast.Name) and x.id == var and isinstance(x.ctx, ast.Store):
                     s = RAW
                 if isinstance(x, ast.Call) and isinstance(x.func, ast.Name) and x.func.id in nonlocal_helpers:
-                    s = NORM if x.func.id in helpers else RAW
+                    s = NORM if (x.func.id in helpers or (f"{x.func.id}('CACHE')" in helpers and len(x.args) == 1 and norm(x.args[0]) == "'CACHE'")) else RAW
             return s, s
 
         work = [g.entry]
@@ -868,6 +870,21 @@ def join1(ctx: Ctx) -> None:
         break
     else:
         ctx.R.ok("NAME-1", "the trickery path identifies managers by stack position only (no __name__ test)")
+    # no result is returned before the exit analysis was consulted: a manager suspended in its own __exit__ / __aexit__ has
+    # already lost its block, so "no blocks" does not mean "no contexts"
+    g_ = ctx.cfg(fn)
+    ex_st = src.get("exiting")
+    if ex_st is not None:
+        en = g_.node_of(ex_st)
+        for r_ in [x for x in ast.walk(fn) if isinstance(x, ast.Return) and mod.enclosing_def(x) is fn]:
+            rn = g_.node_of(r_)
+            if not g_.all_paths_pass(g_.entry, {rn.idx}, {en.idx}):
+                conds = [norm(gx)[:50] for gx, pol in guards_of(mod, r_, fn)]
+                ctx.R.fail("JOIN-1", mod, r_, f"`{norm(r_)[:40]}` (under {conds}) returns before currently_exiting_context(frame) was consulted: a frame suspended inside the __exit__ / __aexit__ of its only "
+                           "open with-block has no block left, and its exiting context is silently dropped", construct="return before the exit analysis")
+                break
+        else:
+            ctx.R.ok("JOIN-1", "every return of the trickery path has consulted the exit analysis")
     # exiting entry
     found = False
     for n in ast.walk(fn):
@@ -1044,6 +1061,12 @@ def fall1(ctx: Ctx) -> None:
     for n in ast.walk(fn):
         if isinstance(n, ast.Assign) and norm(n.targets[0]) == "locals_by_id[id(value)]" and norm(n.value) == "name":
             ok = True
+        # {id(value): name for name, value in frame.f_locals.items()}
+        if isinstance(n, ast.Assign) and norm(n.targets[0]) == "locals_by_id" and isinstance(n.value, ast.DictComp) and len(n.value.generators) == 1 \
+                and isinstance(n.value.generators[0].target, ast.Tuple) and len(n.value.generators[0].target.elts) == 2 and norm(n.value.generators[0].iter).endswith("f_locals.items()"):
+            nm_, val_ = (norm(e) for e in n.value.generators[0].target.elts)
+            if norm(n.value.key) == f"id({val_})" and norm(n.value.value) == nm_:
+                ok = True
     if ok:
         ctx.R.ok("FALL-1", "locals_by_id[id(value)] = name")
     else:
